@@ -161,8 +161,8 @@ namespace sqf::parser::config
                     // Check if line comment start
                     if (is_match_repeated<2, '/'>(iter))
                     {
-                        // find line comment end
-                        while (!is_match<'\n'>(++iter));
+                        // find line comment end: the newline, or the end of the input
+                        while (++iter < m_end && !is_match<'\n'>(iter));
 
                         // update position info
                         m_line++;
@@ -179,7 +179,7 @@ namespace sqf::parser::config
                         ++iter;
                         ++iter;
                         // find block comment end
-                        while (!(is_match<'*'>(iter) && is_match<'/'>(iter + 1)))
+                        while (iter < m_end && !(is_match<'*'>(iter) && is_match<'/'>(iter + 1)))
                         {
                             // update position info
                             if (!is_match<'\n'>(iter))
